@@ -136,6 +136,10 @@ def gen_case(seed, tier):
               "d1": {"edge": cfg.choice(["pos", "neg"]), "period": p1, "phase": ph1},
               "d2": ({"edge": cfg.choice(["pos", "neg"]), "period": p2, "phase": ph2} if two else None),
               "replace": [p for p in PARTS if fl.random() < 0.3], "sample_variant": fl.random() < 0.5}
+    # the memory's second write port may live in the other domain and address the same rows as the first: when both clocks have
+    # an active edge in one instant and both ports write one row, the row ends up with one of the two values - the same one
+    # under every process order
+    config["mem_cross"] = bool(two and fl.random() < 0.35)
     doms = ["d1", "d2"] if two else ["d1"]
     ntb = cfg.randint(1, 4)
     twins = ntb >= 2 and cfg.random() < 0.4
@@ -242,8 +246,8 @@ class Reference:
 
     def snapshot(self):
         y1, y2, y3, out = self.comb()
-        return [self.x, self.en, y1, y2, y3, self.r1, self.r2, out, self.r3, self.rows[self.x & 3] & self.mask] + \
-               [r & self.mask for r in self.rows]
+        m_ = lambda r: r if r == "*" else r & self.mask
+        return [self.x, self.en, y1, y2, y3, self.r1, self.r2, out, self.r3, m_(self.rows[self.x & 3])] + [m_(r) for r in self.rows]
 
     # --- time
     def phase(self, d):
@@ -407,8 +411,16 @@ class Reference:
                 # two write ports on the same edge, always different rows: {0, r1[0]} and {1, r2[0]}
                 if pre[3]:
                     rows_new[pre[0] & 1] = pre[2][2]
-                if self.wen2:
+                if self.wen2 and not self.c.get("mem_cross"):
                     rows_new[2 | (pre[1] & 1)] = pre[2][0]
+            if self.c.get("mem_cross") and "d2" in edges_now and self.wen2:
+                # the second port, on the other clock, writes rows {0, r2[0]}: the same row as the first port when r1[0] == r2[0]
+                row = pre[1] & 1
+                if "d1" in edges_now and pre[3] and (pre[0] & 1) == row and pre[2][2] != pre[2][0]:
+                    rows_new[row] = "*"        # either value, whichever it is under one order it is under all
+                    self.stats["cross_domain_write_collision"] = self.stats.get("cross_domain_write_collision", 0) + 1
+                else:
+                    rows_new[row] = pre[2][0]
             if dom_of["r2"] in edges_now:
                 r3_new = (r3_new & 1) | (((self.r3 >> 1) ^ pre[3]) & 1) << 1
             self.r3 = r3_new
@@ -538,11 +550,12 @@ def build(config):
             m.d.d1 += s.r3[0].eq(s.r3[0] ^ s.x[0])
             m.d[d2] += s.r3[1].eq(s.r3[1] ^ s.en)
             m.submodules.mem = s.mem
+            cross = bool(config.get("mem_cross"))
             wp0 = s.mem.write_port(domain="d1")
-            wp1 = s.mem.write_port(domain="d1")
+            wp1 = s.mem.write_port(domain=d2 if cross else "d1")
             rp = s.mem.read_port(domain="comb")
             m.d.comb += [wp0.addr.eq(Cat(s.r1[0], 0)), wp0.data.eq(s.y3), wp0.en.eq(s.en),
-                         wp1.addr.eq(Cat(s.r2[0], 1)), wp1.data.eq(s.y1), wp1.en.eq(s.wen2),
+                         wp1.addr.eq(Cat(s.r2[0], 0 if cross else 1)), wp1.data.eq(s.y1), wp1.en.eq(s.wen2),
                          rp.addr.eq(s.x[0:2]), s.md.eq(rp.data)]
             return m
 
@@ -943,6 +956,7 @@ def run_case(case):
         for k in ("race_wait", "race_tie", "race_won_by_signal", "race_won_by_delay"):
             P[k] = P.get(k, 0) + rs.get(k, 0)
         P["woken_by_testbench"] = P.get("woken_by_testbench", 0) + rs.get("woken_by_testbench", 0)
+        P["cross_domain_write_collision"] = P.get("cross_domain_write_collision", 0) + rs.get("cross_domain_write_collision", 0)
         P["replaced_comb"] += sum(1 for p in config["replace"] if p in ("s1", "s2", "s3", "out"))
         P["replaced_sync"] += sum(1 for p in config["replace"] if p in ("r1", "r2"))
         stats["steps"] += len(expected)
@@ -958,6 +972,11 @@ def run_case(case):
             # positions the reference leaves open ("*") are not compared with it
             log = [(g[:4] + [[("*" if ev == "*" else gv) for gv, ev in zip(g[4], e[4])]] + g[5:])
                    if (isinstance(e[4], list) and "*" in e[4] and isinstance(g[4], list) and len(g[4]) == len(e[4])) else g
+                   for g, e in zip(log, expected)] + log[len(expected):]
+            # rows the reference leaves open ("*": written from two clocks in one instant) are compared between orders only
+            log = [(g[:5] + [[("*" if ev == "*" else gv) for gv, ev in zip(g[5], e[5])]])
+                   if (len(g) == 6 and len(e) == 6 and isinstance(e[5], list) and "*" in e[5] and isinstance(g[5], list)
+                       and len(g[5]) == len(e[5])) else g
                    for g, e in zip(log, expected)] + log[len(expected):]
             if log != expected:
                 n = next((j for j, (a, b) in enumerate(zip(log, expected)) if a != b), min(len(log), len(expected)))
